@@ -129,6 +129,17 @@ static void case_fn(uint64_t idx, void *ctx)
             if (bad) break;
         }
         spif_tok_del(t);
+        /* a tokenizer that worked with other quote and escape characters, was done() with and is handed this source: done() leaves an object as new, the grammar is the common one again */
+        { spif_tok_t u = spif_tok_new_from_ptr((spif_charptr_t) "q|w x|#y%#z#");
+          spif_tok_set_quote(u, '|'); spif_tok_set_dquote(u, '#'); spif_tok_set_escape(u, '%'); spif_tok_eval(u);
+          spif_tok_done(u);
+          spif_tok_set_src(u, spif_str_new_from_ptr((spif_charptr_t) s));
+          if (d) spif_tok_set_sep(u, spif_str_new_from_ptr((spif_charptr_t) hd));
+          if (!spif_tok_eval(u)) FAIL("spif_tok_eval", "model:return", shape, "eval of a tokenizer reused after done() returned FALSE");
+          else { spif_list_t tl = spif_tok_get_tokens(u); int tn = tl ? (int) SPIF_LIST_COUNT(tl) : 0, bad = tn != ref.n;
+              for (int i = 0; i < tn && !bad; i++) { spif_str_t ts = SPIF_STR(SPIF_LIST_GET(tl, i)); char r[24]; strcpy(r, ref.t[i]); trim(r); if (strcmp((ts && ts->s) ? (char *) ts->s : "", r)) bad = 1; }
+              if (bad) FAIL("spif_tok_done", "model:reuse", shape, "a tokenizer that used other quote/escape characters before done() gives %d tokens that differ from the grammar's %d (delimiters %s)", tn, ref.n, d ? d : "whitespace"); }
+          spif_tok_del(u); }
         if (sl) { for (int i = 0; i < got; i++) free(sl[i]); free(sl); }
         if (ref.n > 1 || strpbrk(raw, "\"'\\")) mc_nontrivial();
         mc_outcome(mc_hash(&ref, sizeof(int) + (size_t) ref.n * 24) + (uint64_t) di);
